@@ -261,6 +261,18 @@ impl<'r, 'a, RT: Runtime + 'r> Machine<'r, 'a, RT> {
 
     pub fn execute(mut self) -> Result<Output, ActorError> {
         while self.pc < self.bytecode.len() {
+            #[cfg(filecoin_project_builtin_actors_verif)]
+            if !crate::verif_hook::on_step(&crate::verif_hook::Step {
+                pc: self.pc,
+                op: self.bytecode[self.pc],
+                stack: self.state.stack.as_slice(),
+                memory_size: self.state.memory.len(),
+            }) {
+                return Err(ActorError::unchecked(
+                    fvm_shared::error::ExitCode::SYS_OUT_OF_GAS,
+                    format!("verif: out of fuel (pc={})", self.pc),
+                ));
+            }
             // This is faster than the question mark operator, and speed counts here.
             #[allow(clippy::question_mark)]
             if let Err(e) = self.step() {
